@@ -1050,8 +1050,7 @@ class Filterbank(ABC):
         chan_delays = self.header.get_dmdelays(dm)
         max_delay = int(chan_delays.max())
         gulp = max(2 * max_delay, gulp)
-        # must be memset to zero in c code
-        out_ar = np.empty((gulp - max_delay) * nsub, dtype="float32")
+        out_ar = np.zeros((gulp - max_delay) * nsub, dtype="float32")
         new_foff = self.header.foff * self.header.nchans // nsub
         new_fch1 = self.header.ftop - new_foff / 2
         chan_to_sub = np.arange(self.header.nchans, dtype="int32") // subfactor
@@ -1073,6 +1072,8 @@ class Filterbank(ABC):
             skipback=max_delay,
             **plan_kwargs,
         ):
+            # the kernel accumulates into out_ar: start every block from zero
+            out_ar[:] = 0
             kernels.subband(
                 data,
                 out_ar,
